@@ -36,7 +36,7 @@ def c08a(ctx):
     cc = b.calls_to(r"::computing_lock_to_computed$")
     nw = b.calls_to(r"::new_write_transaction$")
     o.sites = len(dp) + len(cc) + len(nw)
-    if len(dp) != 1 or len(cc) != 1 or len(nw) != 2:
+    if len(dp) != 1 or len(cc) != 1 or len(nw) < 2:
         ctx.fail(o, Site(b, 0, 0), "anchors missing (dirty_propagate=%d computing_lock_to_computed=%d new_write_transaction=%d)" % (len(dp), len(cc), len(nw)))
         return
     tx = df.origins_of_operand(b, cc[0].node["args"][9])
@@ -44,7 +44,7 @@ def c08a(ctx):
     if dp[0] not in calls:
         ctx.fail(o, cc[0], "the batch handed to computing_lock_to_computed does not derive from dirty_propagate_from_batch: after a crash the store could hold the "
                  "firewall's new value without the dirty marks of its callers (stale answers above it)")
-    extra = [s for s in calls if s not in (dp[0], nw[0], nw[1])]
+    extra = [s for s in calls if s != dp[0] and s not in nw]
     if extra:
         ctx.fail(o, cc[0], "the publishing batch can come from %s" % extra[0].node["fn"]["path"])
     # the batch given to dirty_propagate is a fresh one created in the same arm
@@ -54,7 +54,13 @@ def c08a(ctx):
     # on the updated path the un-propagated fresh batch must not be what is published: dp's result overwrites it
     arm_new = [n for n in nw if b.site_dominates(n, dp[0])]
     if len(arm_new) != 1:
-        ctx.fail(o, dp[0], "expected the firewall arm to create its batch before propagating")
+        ctx.fail(o, dp[0], "expected the firewall arm to create exactly one batch before propagating (found %d): with a batch of its own the dirty marks get a later epoch "
+                 "than the value they belong to and are committed after it" % len(arm_new))
+    # nothing in the publish block hands the propagated batch to the write manager on its own
+    for sb in b.calls_to(r"::submit_write_buffer$"):
+        if any(x.kind == "call" and x.site == dp[0] for x in df.origins_of_operand(b, sb.node["args"][-1])):
+            ctx.fail(o, sb, "the batch holding the callers' dirty marks is submitted on its own: it is committed separately from the firewall's new value, and a crash between "
+                     "the two commits leaves the value verified for this timestamp above clean edges")
 
 
 def c08b(ctx):
